@@ -296,14 +296,6 @@ theorem allLines_nil : allLines [] = [] := by
   · rfl
   · rename_i h; simp [matchLine, splitLF] at h
 
-/-- `re.sub('\\r?\\n', '\\r\\n', text)`: the documented normalisation of line breaks. -/
-def normGo (prevCR : Bool) : Bytes → Bytes
-  | [] => []
-  | b :: r => if b == 10 then (if prevCR then [10] else [13, 10]) ++ normGo false r
-              else b :: normGo (b == 13) r
-
-def normCRLF (m : Bytes) : Bytes := normGo false m
-
 theorem normGo_noLF (a : Bytes) (ha : ∀ b ∈ a, b ≠ 10) (f : Bool) (x : Bytes) :
     normGo f (a ++ x) = a ++ normGo (if a = [] then f else a.getLast? == some 13) x := by
   induction a generalizing f with
